@@ -510,6 +510,11 @@ def run_R(ck, F):
                          case=dict(kind='inject', a=a, b=b), replay='props.C05:replay', wclass='pair')
 
 
+def replay_table(case):
+    probs = MB.table_problems()
+    return bool(probs), ('; '.join(probs)[:400] or 'the live primitive table agrees with the protocol list')
+
+
 def run(ck: Check) -> int:
     from pytezos.michelson import forge as F
     for f in (F.forge_nat, F.forge_int, F.unforge_int, F.get_tag, F.read_tag, F.forge_array, F.unforge_array,
@@ -595,6 +600,13 @@ def run(ck: Check) -> int:
         functions_interpreted(ck, eng)
         ck.evaluate(('S-shape', sh[0], idx), sample={'shape': sh} if idx in (3, len(shapes) - 1) else None)
 
+    # ---- the primitive table against the protocol's list (finite, checked completely)
+    probs = MB.table_problems()
+    ck.obligation('prim_tags::ensures.every_protocol_primitive_at_its_protocol_tag,no_two_primitives_on_one_tag', 'failed' if probs else 'discharged',
+                  kind='P', backend='enumeration(158 protocol primitives)', detail='; '.join(probs)[:500] or None)
+    for pr in probs[:4]:
+        ck.violation('prim_tags::ensures.every_protocol_primitive_at_its_protocol_tag,no_two_primitives_on_one_tag', pr,
+                     case=dict(kind='prim_table', problem=pr), replay='props.C05:replay_table', wclass='prim-table')
     # ---- induction step over opaque children (unbounded depth)
     from props.C05_step import run_step
     run_step(ck)
